@@ -78,12 +78,26 @@ def case_unique(ctx, p):
     if len(orc.families) >= 3:
         mon.nontriv(o.no, o.cell_choice, c["cell"], c["smin"], c["smax"])
     where = {"group": "%s (no %d, %s)" % (o.name, o.no, o.cell_choice), "cell": c["cell"], "shell": [c["smin"], c["smax"]], "module": m}
-    kw = dict(sgno=o.no, cell_choice=p["cc"]) if p["s"] % 2 else dict(sgname=o.name)
+    pos = ()
+    if c["rhomb"] and p["s"] % 3 == 0:
+        # the third documented way to ask for the rhombohedral setting: plain name + explicit cell_choice
+        kw = dict(sgname=o.name[:-1] if o.name[-1:] in "rR" else o.name, cell_choice="rhombohedral")
+        mon.config("call form: plain name + cell_choice")
+    elif p["s"] % 5 == 4:
+        # the optional arguments in their documented positional order (sgname, sgno, cell_choice)
+        pos, kw = (None, o.no, p["cc"]), {}
+        mon.config("call form: positional (None, number, cell_choice)")
+    elif p["s"] % 2:
+        kw = dict(sgno=o.no, cell_choice=p["cc"])
+        mon.config("call form: number + cell_choice")
+    else:
+        kw = dict(sgname=o.name)
+        mon.config("call form: name")
     name = "history:genhkl_unique has exactly one row per allowed Laue family"
     tr.reset()
     tr.on = True
     try:
-        U = mod.genhkl_unique(c["held"], c["smin"], c["smax"], output_stl=True, **kw)
+        U = mod.genhkl_unique(c["held"], c["smin"], c["smax"], output_stl=True, *pos, **kw)
     except Exception as exc:
         mon.check(name, False, observed=repr(exc), detail=where)
         return
@@ -118,7 +132,7 @@ def case_unique(ctx, p):
     name = "history:genhkl_all is the union of the families of genhkl_unique"
     np.random.seed(int(c["rng"].integers(0, 2 ** 31)))
     try:
-        A = mod.genhkl_all(c["held"], c["smin"], c["smax"], output_stl=True, **kw)
+        A = mod.genhkl_all(c["held"], c["smin"], c["smax"], output_stl=True, *pos, **kw)
     except Exception as exc:
         mon.check(name, False, observed=repr(exc), detail=where)
         return
@@ -140,8 +154,8 @@ def case_unique(ctx, p):
     name = "history:output_stl=False gives the same rows without column 4"
     try:
         if p["s"] % 4 == 0:
-            ctx.probe_alias(mod.genhkl_unique, c["held"], c["smin"], c["smax"], output_stl=True, **kw)
-        U3 = np.asarray(mod.genhkl_unique(c["held"], c["smin"], c["smax"], **kw), float)
+            ctx.probe_alias(mod.genhkl_unique, c["held"], c["smin"], c["smax"], output_stl=True, *pos, **kw)
+        U3 = np.asarray(mod.genhkl_unique(c["held"], c["smin"], c["smax"], *pos, **kw), float)
         c05.cell_untouched(ctx, c, "%s.genhkl_unique / genhkl_all" % m)
         ok = U3.shape == (len(U), 3) and bool(np.array_equal(U3, U[:, :3]))
         mon.check(name, ok, observed=None if ok else U3.shape, expected=None if ok else (len(U), 3), detail=None if ok else where)
@@ -159,7 +173,7 @@ def case_unique(ctx, p):
             tr.reset()
             tr.on = True
             try:
-                upto = mod.genhkl_unique(c["held"], c["smin"], s_i, output_stl=True, **kw)
+                upto = mod.genhkl_unique(c["held"], c["smin"], s_i, output_stl=True, *pos, **kw)
             finally:
                 tr.on = False
             tu, _ = c05.rows_to_tuples(upto)
@@ -172,7 +186,7 @@ def case_unique(ctx, p):
                     finding = FINDING
             mon.check(name, inc, observed=None if inc else "row %s (sintl %r) not returned with sintlmax = %r" % (h, s_i, s_i),
                       detail=None if inc else where, finding=finding)
-            frm = mod.genhkl_unique(c["held"], s_i, c["smax"], output_stl=True, **kw)
+            frm = mod.genhkl_unique(c["held"], s_i, c["smax"], output_stl=True, *pos, **kw)
             tf, _ = c05.rows_to_tuples(frm)
             exc = tf is not None and not any(q in fam for q in tf)
             mon.check(name, exc, observed=None if exc else "row %s (sintl %r) still returned with sintlmin = %r" % (h, s_i, s_i),
